@@ -3,23 +3,23 @@ import importlib
 
 # property -> (module, attribute, level, quick runs, thorough runs)
 TABLE = {
-    "C01": ("sim.scenarios.state", "C01", "exploration", 4000, 400000),
-    "C02": ("sim.scenarios.persist", "C02", "exploration", 3000, 300000),
-    "C03": ("sim.scenarios.persist", "C03", "exploration", 3000, 300000),
-    "C06": ("sim.scenarios.c06", "SCENARIO", "exploration", 4000, 400000),
-    "C07": ("sim.scenarios.keyfile", "SCENARIO", "exploration", 20000, 1500000),
-    "C08": ("sim.scenarios.crypto", "C08", "exploration", 8000, 1000000),
-    "C09": ("sim.scenarios.crypto", "C09", "exploration", 4000, 500000),
-    "C10": ("sim.scenarios.persist", "C10", "exploration", 3000, 300000),
-    "C11": ("sim.scenarios.validation", "SCENARIO", "exploration", 4000, 400000),
-    "C12": ("sim.scenarios.state", "C12", "exploration", 4000, 400000),
-    "C15": ("sim.scenarios.state", "C15", "exploration", 4000, 400000),
-    "C13": ("sim.scenarios.isolation", "SCENARIO", "exploration", 3000, 300000),
-    "C14": ("sim.scenarios.environment", "SCENARIO", "exploration", 4000, 400000),
-    "C16": ("sim.scenarios.naming", "SCENARIO", "exploration", 4000, 400000),
-    "C17": ("sim.scenarios.containers", "SCENARIO", "exploration", 8000, 800000),
-    "C18": ("sim.scenarios.includes", "SCENARIO", "exploration", 4000, 400000),
-    "C19": ("sim.scenarios.savecrash", "SCENARIO", "fault_enumeration", 1500, 100000),
+    "C01": ("sim.scenarios.state", "C01", "exploration", 25000, 600000),
+    "C02": ("sim.scenarios.persist", "C02", "exploration", 20000, 500000),
+    "C03": ("sim.scenarios.persist", "C03", "exploration", 20000, 500000),
+    "C06": ("sim.scenarios.c06", "SCENARIO", "exploration", 30000, 800000),
+    "C07": ("sim.scenarios.keyfile", "SCENARIO", "exploration", 150000, 3000000),
+    "C08": ("sim.scenarios.crypto", "C08", "exploration", 80000, 1500000),
+    "C09": ("sim.scenarios.crypto", "C09", "exploration", 80000, 2000000),
+    "C10": ("sim.scenarios.persist", "C10", "exploration", 20000, 500000),
+    "C11": ("sim.scenarios.validation", "SCENARIO", "exploration", 30000, 600000),
+    "C12": ("sim.scenarios.state", "C12", "exploration", 30000, 800000),
+    "C15": ("sim.scenarios.state", "C15", "exploration", 30000, 600000),
+    "C13": ("sim.scenarios.isolation", "SCENARIO", "exploration", 12000, 300000),
+    "C14": ("sim.scenarios.environment", "SCENARIO", "exploration", 30000, 600000),
+    "C16": ("sim.scenarios.naming", "SCENARIO", "exploration", 30000, 700000),
+    "C17": ("sim.scenarios.containers", "SCENARIO", "exploration", 100000, 2500000),
+    "C18": ("sim.scenarios.includes", "SCENARIO", "exploration", 25000, 500000),
+    "C19": ("sim.scenarios.savecrash", "SCENARIO", "fault_enumeration", 6000, 150000),
 }
 
 _cache = {}
